@@ -258,6 +258,13 @@ theorem inv_popC (s : State) (c : Nat) (ha : s.alive = true) (h : Inv s) : Inv (
   · exact h
   · exact inv_pop s c ha h
 
+theorem inv_popThrowC (s : State) (c : Nat) (ha : s.alive = true) (h : Inv s) : Inv (stepPopThrowC s c).1 := by
+  unfold stepPopThrowC
+  split
+  · exact inv_popC s c ha h
+  · obtain ⟨h1, h2, h3, h4, h5, h6, h7, h8, h9⟩ := h
+    exact ⟨h1, h2, h3, h4, h5, h6, h7, h8, h9⟩
+
 theorem inv_step (s : State) (op : Op) (h : Inv s) : Inv (step s op).1 := by
   unfold step
   cases op <;> simp only <;> (try split) <;> (try unfold stepLive) <;> (try simp only) <;>
@@ -266,6 +273,7 @@ theorem inv_step (s : State) (op : Op) (h : Inv s) : Inv (step s op).1 := by
     | exact inv_pushC s _ _ (by assumption) h
     | exact inv_pushThrowC s (by assumption) h
     | exact inv_popC s _ (by assumption) h
+    | exact inv_popThrowC s _ (by assumption) h
     | exact inv_pushthrow s (by assumption) h
     | exact inv_push s _ _ (by assumption) h
     | exact inv_pop s _ (by assumption) h
@@ -293,6 +301,10 @@ theorem cfg_step (s : State) (op : Op) : (step s op).1.cap = s.cap ∧ (step s o
     unfold stepPushThrowC stepPushThrow; split <;> (try split) <;> exact ⟨rfl, rfl⟩
   have hpop : ∀ c, (stepPopC s c).1.cap = s.cap ∧ (stepPopC s c).1.wcap = s.wcap := by
     intro c; unfold stepPopC stepPop; split <;> (try split) <;> exact ⟨rfl, rfl⟩
+  have hpopt : ∀ c, (stepPopThrowC s c).1.cap = s.cap ∧ (stepPopThrowC s c).1.wcap = s.wcap := by
+    intro c; unfold stepPopThrowC; split
+    · exact hpop c
+    · exact ⟨rfl, rfl⟩
   have hupop : ∀ c, (stepUpop s c).1.cap = s.cap ∧ (stepUpop s c).1.wcap = s.wcap := by
     intro c; unfold stepUpop; split <;> exact ⟨rfl, rfl⟩
   have hdel : ∀ k, (stepDeliver s k).1.cap = s.cap ∧ (stepDeliver s k).1.wcap = s.wcap := by
@@ -305,6 +317,7 @@ theorem cfg_step (s : State) (op : Op) : (step s op).1.cap = s.cap ∧ (step s o
     | exact hpush _ _
     | exact hthrow
     | exact hpop _
+    | exact hpopt _
     | exact hupop _
     | exact hdel _
 
@@ -385,6 +398,12 @@ theorem capinv_popC (s : State) (c : Nat) (h : CapInv s) : CapInv (stepPopC s c)
       · intro n hn; have := h.items_le n hn; simp [hi] at this ⊢; omega
       · intro n hn; exact h.waiters_le n hn
 
+theorem capinv_popThrowC (s : State) (c : Nat) (h : CapInv s) : CapInv (stepPopThrowC s c).1 := by
+  unfold stepPopThrowC
+  split
+  · exact capinv_popC s c h
+  · exact ⟨h.items_le, h.waiters_le⟩
+
 theorem capinv_upop (s : State) (c : Nat) (h : CapInv s) : CapInv (stepUpop s c).1 := by
   unfold stepUpop
   cases hw : s.waiters with
@@ -414,6 +433,7 @@ theorem capinv_step (s : State) (op : Op) (h : CapInv s) : CapInv (step s op).1 
     | exact capinv_pushC s _ _ h
     | exact capinv_pushThrowC s h
     | exact capinv_popC s _ h
+    | exact capinv_popThrowC s _ h
     | exact capinv_upop s _ h
     | exact capinv_destroy s h
     | exact capinv_deliver s _ h
@@ -426,6 +446,81 @@ theorem capinv_run (s : State) (ops : List Op) (h : CapInv s) : CapInv (run s op
 theorem reachable_capinv {s : State} (h : Reachable s) : CapInv s := by
   obtain ⟨cap, wcap, ops, rfl⟩ := h
   exact capinv_run _ ops (capinv_init cap wcap)
+
+/-- an item whose hand-over threw is an item that was pushed -/
+def RInv (s : State) : Prop := ∀ it ∈ s.rethrown, it ∈ s.pushed
+
+theorem mem_pushed_of_mem_items {s : State} (h : Inv s) {x : Item} (hx : x ∈ s.items) : x ∈ s.pushed := by
+  rw [← h.fifo]; exact List.mem_append_right _ hx
+
+theorem rinv_step (s : State) (op : Op) (hi : Inv s) (h : RInv s) : RInv (step s op).1 := by
+  have keep : ∀ t : State, t.rethrown = s.rethrown → (∀ it ∈ s.pushed, it ∈ t.pushed) → RInv t := by
+    intro t h1 h2 it hit; rw [h1] at hit; exact h2 it (h it hit)
+  have hpush : ∀ p v, RInv (stepPushC s p v).1 := by
+    intro p v; unfold stepPushC stepPush
+    split
+    · exact h
+    · split
+      · exact keep _ rfl (fun it hit => List.mem_append_left _ hit)
+      · exact keep _ rfl (fun it hit => List.mem_append_left _ hit)
+  have hthrow : RInv (stepPushThrowC s).1 := by
+    unfold stepPushThrowC stepPushThrow
+    split
+    · exact h
+    · split
+      · exact h
+      · exact keep _ rfl (fun it hit => hit)
+  have hpop : ∀ c, RInv (stepPopC s c).1 := by
+    intro c; unfold stepPopC stepPop
+    split
+    · exact h
+    · split
+      · exact keep _ rfl (fun it hit => hit)
+      · exact keep _ rfl (fun it hit => hit)
+  have hpopt : ∀ c, RInv (stepPopThrowC s c).1 := by
+    intro c; unfold stepPopThrowC
+    cases hit : s.items with
+    | nil => simp only; exact hpop c
+    | cons x xs =>
+      simp only
+      intro it hmem
+      simp only [List.mem_append, List.mem_singleton] at hmem
+      rcases hmem with hm | hm
+      · exact h it hm
+      · subst hm; exact mem_pushed_of_mem_items hi (by rw [hit]; exact List.mem_cons_self)
+  have hupop : ∀ c, RInv (stepUpop s c).1 := by
+    intro c; unfold stepUpop; split
+    · exact h
+    · exact keep _ rfl (fun it hit => hit)
+  have hdes : RInv (stepDestroy s).1 := by
+    unfold stepDestroy; exact keep _ rfl (fun it hit => hit)
+  have hdel : ∀ k, RInv (stepDeliver s k).1 := by
+    intro k; unfold stepDeliver; split
+    · exact h
+    · exact keep _ rfl (fun it hit => hit)
+  unfold step
+  cases op <;> simp only <;> (try split) <;> (try unfold stepLive) <;> (try simp only) <;>
+    first
+    | exact h
+    | exact hpush _ _
+    | exact hthrow
+    | exact hpop _
+    | exact hpopt _
+    | exact hupop _
+    | exact hdes
+    | exact hdel _
+
+theorem reachable_rinv {s : State} (h : Reachable s) : RInv s := by
+  obtain ⟨cap, wcap, ops, rfl⟩ := h
+  suffices ∀ (s : State), Inv s → RInv s → RInv (run s ops) from
+    this _ (inv_initCfg cap wcap) (by intro it hit; simp [initCfg] at hit)
+  induction ops with
+  | nil => intro s _ h; exact h
+  | cons op ops ih => intro s hi h; exact ih (step s op).1 (inv_step s op hi) (rinv_step s op hi h)
+
+theorem nodup_pushed {s : State} (h : Inv s) : s.pushed.Nodup := by
+  have : (s.pushed.map (·.id)).Nodup := by rw [h.push_ids]; exact List.nodup_range
+  exact List.Pairwise.of_map (·.id) (fun a b hab heq => hab (by rw [heq])) this
 
 end Cocls.Q
 
@@ -525,6 +620,20 @@ theorem popC_abs (s : Q.State) (c : Nat) :
   · exact pop_abs s c
 
 /-- (`queue<void>` cannot have a bounded item store: `single_item_queue<void>` does not exist - hence `cap = none`) -/
+theorem popThrowC_abs (s : Q.State) (c : Nat) :
+    VQ.stepPopThrowC (abs s) c = (abs (Q.stepPopThrowC s c).1, forgetRes (Q.stepPopThrowC s c).2) := by
+  unfold VQ.stepPopThrowC Q.stepPopThrowC
+  cases hi : s.items with
+  | nil =>
+    have : (abs s).sz = 0 := by simp [abs, hi]
+    simp only [this, if_true]
+    have := popC_abs s c
+    simpa [hi] using this
+  | cons x xs =>
+    have : (abs s).sz ≠ 0 := by simp [abs, hi]
+    simp only [this, if_false]
+    simp [abs, hi, forgetRes]
+
 theorem step_abs (s : Q.State) (op : Op) (hc : s.cap = none) :
     VQ.step (abs s) op = (abs (Q.step s op).1, forgetRes (Q.step s op).2) := by
   have e : (abs s).alive = s.alive := rfl
@@ -542,6 +651,10 @@ theorem step_abs (s : Q.State) (op : Op) (hc : s.cap = none) :
   | pop c =>
     simp only [e]; split
     · exact popC_abs s c
+    · rfl
+  | popthrow c =>
+    simp only [e]; split
+    · exact popThrowC_abs s c
     · rfl
   | upop c =>
     simp only [e]; split
